@@ -31,17 +31,22 @@ func genProtoPlan(r *rand.Rand) *plan.Plan {
 	// the fake clock is moved to a known, odd instant first
 	inc.Ops = append(inc.Ops, plan.Op{Kind: "advance", DurMs: int64(1000 + r.IntN(5_000_000))})
 	protos := []string{"es_bulk", "es_doc", "hec", "loki"}
+	// short values that need JSON escapes (quote, backslash, newline, and the characters Go's encoder writes
+	// as \u00XX) next to plain and non-ASCII ones
+	msgs := []string{"hello world", "disk full", "GET /x?a=1&b=2", "ünïcode ✓", `say "hi"`, `C:\tmp\x`, "l1\nl2", "<b>&</b>", "tab\there"}
 	n := 4 + r.IntN(10)
-	for i := 0; i < n; i++ {
-		ev := ProtoEvent{Proto: protos[r.IntN(len(protos))], VID: fmt.Sprintf("x%d", i), Code: 100 + r.IntN(500), Msg: []string{"hello world", "disk full", "GET /x?a=1&b=2", "ünïcode ✓"}[r.IntN(4)],
-			Fields: map[string]string{"level": []string{"info", "error"}[r.IntN(2)], "svc": []string{"api", "db"}[r.IntN(2)]}}
+	vidN := 0
+	// mk: one logical event and its encoding for the given protocol (a piece of a request body)
+	mk := func(proto string) (ProtoEvent, any) {
+		ev := ProtoEvent{Proto: proto, VID: fmt.Sprintf("x%d", vidN), Code: 100 + r.IntN(500), Msg: msgs[r.IntN(len(msgs))],
+			Fields: map[string]string{"level": []string{"info", "error"}[r.IntN(2)], "svc": []string{"api", "db", `a"b`, `p\q`}[r.IntN(4)]}}
+		vidN++
 		ev.Carried = r.IntN(3) > 0
 		// carried times lie clearly away from every instant of the simulated clock in this run
 		// (2021-2023: the unit heuristics of the ingest path are calibrated for present-day epochs, and the
 		// fake clock lives in the year 2000, so the two can never be confused)
 		ev.TMs = 1_609_459_200_000 + int64(86_400_000)*int64(r.IntN(1000)) + int64(r.IntN(86_400_000))
-		var op plan.Op
-		switch ev.Proto {
+		switch proto {
 		case "es_bulk", "es_doc":
 			doc := map[string]any{"vid": ev.VID, "code": ev.Code, "msg": ev.Msg}
 			for k, v := range ev.Fields {
@@ -61,12 +66,7 @@ func genProtoPlan(r *rand.Rand) *plan.Plan {
 					ev.Unit = "ms-string"
 				}
 			}
-			db, _ := json.Marshal(doc)
-			if ev.Proto == "es_bulk" {
-				op = plan.Op{Kind: "http", Body: `{"index":{"_index":"p16"}}` + "\n" + string(db) + "\n", Args: map[string]any{"server": "ingest", "method": "POST", "path": "/elastic/_bulk"}}
-			} else {
-				op = plan.Op{Kind: "http", Body: string(db), Args: map[string]any{"server": "ingest", "method": "POST", "path": "/elastic/p16/_doc"}}
-			}
+			return ev, doc
 		case "hec":
 			evt := map[string]any{"vid": ev.VID, "code": ev.Code, "msg": ev.Msg}
 			for k, v := range ev.Fields {
@@ -77,23 +77,64 @@ func genProtoPlan(r *rand.Rand) *plan.Plan {
 				rec["time"] = float64(ev.TMs) / 1000
 				ev.Unit = "hec-time-seconds"
 			}
-			rb, _ := json.Marshal(rec)
-			op = plan.Op{Kind: "http", Body: string(rb), Args: map[string]any{"server": "ingest", "method": "POST", "path": "/services/collector/event"}}
-		case "loki":
+			return ev, rec
+		default: // loki
 			stream := map[string]string{"vid": ev.VID, "code": fmt.Sprint(ev.Code)}
 			for k, v := range ev.Fields {
 				stream[k] = v
 			}
 			ev.Carried = true // the push format always carries a time
 			ev.Unit = "ns-string"
-			body := map[string]any{"streams": []any{map[string]any{"stream": stream, "values": []any{[]any{fmt.Sprint(ev.TMs * 1_000_000), ev.Msg}}}}}
-			bb, _ := json.Marshal(body)
+			return ev, map[string]any{"stream": stream, "values": []any{[]any{fmt.Sprint(ev.TMs * 1_000_000), ev.Msg}}}
+		}
+	}
+	for i := 0; i < n; i++ {
+		proto := protos[r.IntN(len(protos))]
+		// half of the requests of the batch-capable protocols carry several events
+		k := 1
+		if proto != "es_doc" && r.IntN(2) == 0 {
+			k = 2 + r.IntN(3)
+		}
+		var evs []ProtoEvent
+		var pieces []any
+		for j := 0; j < k; j++ {
+			ev, piece := mk(proto)
+			evs = append(evs, ev)
+			pieces = append(pieces, piece)
+		}
+		var op plan.Op
+		switch proto {
+		case "es_bulk":
+			var sb strings.Builder
+			for _, pc := range pieces {
+				db, _ := json.Marshal(pc)
+				sb.WriteString(`{"index":{"_index":"p16"}}` + "\n" + string(db) + "\n")
+			}
+			op = plan.Op{Kind: "http", Body: sb.String(), Args: map[string]any{"server": "ingest", "method": "POST", "path": "/elastic/_bulk"}}
+		case "es_doc":
+			db, _ := json.Marshal(pieces[0])
+			op = plan.Op{Kind: "http", Body: string(db), Args: map[string]any{"server": "ingest", "method": "POST", "path": "/elastic/p16/_doc"}}
+		case "hec":
+			var sb strings.Builder
+			for _, pc := range pieces {
+				rb, _ := json.Marshal(pc)
+				sb.Write(rb)
+				sb.WriteString("\n")
+			}
+			op = plan.Op{Kind: "http", Body: sb.String(), Args: map[string]any{"server": "ingest", "method": "POST", "path": "/services/collector/event"}}
+		case "loki":
+			bb, _ := json.Marshal(map[string]any{"streams": pieces})
 			op = plan.Op{Kind: "http", Body: string(bb), Args: map[string]any{"server": "ingest", "method": "POST", "path": "/loki/api/v1/push", "headers": map[string]any{"Content-Type": "application/json"}}}
 		}
-		eb, _ := json.Marshal(ev)
-		var em map[string]any
-		_ = json.Unmarshal(eb, &em)
-		op.Args["event"] = em
+		var ems []any
+		for _, ev := range evs {
+			eb, _ := json.Marshal(ev)
+			var em map[string]any
+			_ = json.Unmarshal(eb, &em)
+			ems = append(ems, em)
+		}
+		op.Args["event"] = ems[0]
+		op.Args["events"] = ems
 		inc.Ops = append(inc.Ops, op)
 		if r.IntN(4) == 0 {
 			inc.Ops = append(inc.Ops, plan.Op{Kind: "advance", DurMs: int64(r.IntN(90_000))})
@@ -135,15 +176,21 @@ func protoOracle(prop string, res *RunResult) []Violation {
 		if e == nil {
 			break
 		}
-		if em, ok := op.Args["event"]; ok && op.Kind == "http" {
-			eb, _ := json.Marshal(em)
-			var ev ProtoEvent
-			_ = json.Unmarshal(eb, &ev)
+		if _, ok := op.Args["event"]; ok && op.Kind == "http" {
+			ems, _ := op.Args["events"].([]any)
+			if len(ems) == 0 {
+				ems = []any{op.Args["event"]}
+			}
 			var hr struct {
 				Status int `json:"status"`
 			}
 			_ = json.Unmarshal(e.Data, &hr)
-			sents = append(sents, sent{ev: ev, lo: prevMs, hi: e.SimMs, accepted: hr.Status == 200 || hr.Status == 201, status: hr.Status})
+			for _, em := range ems {
+				eb, _ := json.Marshal(em)
+				var ev ProtoEvent
+				_ = json.Unmarshal(eb, &ev)
+				sents = append(sents, sent{ev: ev, lo: prevMs, hi: e.SimMs, accepted: hr.Status == 200 || hr.Status == 201, status: hr.Status})
+			}
 		}
 		if op.Kind == "query" && e.Err == "" {
 			if q, err := decodeQ(e); err == nil {
